@@ -46,15 +46,20 @@ def check(run):
 
 # ------------------------------------------------------------------------------------------------
 def _normalise(run, prog):
-    cls = _owner_of(prog, "_normalize_importance_values")
-    s = prog.summarise(cls, "_normalize_importance_values")
-    fq = f"{cls.name}._normalize_importance_values"
+    """Analysed through the public get_normalized_importance_values (private helpers are inlined), so the
+    rule does not depend on how the computation is split into helpers or what they are called."""
+    cls = _owner_of(prog, "get_normalized_importance_values")
+    s = prog.summarise(cls, "get_normalized_importance_values")
+    fq = f"{cls.name}.get_normalized_importance_values"
     run.analysed_fn(fq)
-    _, fn = prog.find_method(cls, "_normalize_importance_values")
-    names = [a.arg for a in fn.args.args]
-    if names and names[0] in ("self", "cls"):
-        names = names[1:]
-    vals, mode = ("param", names[0]), ("param", names[1])
+    _, fn = prog.find_method(cls, "get_normalized_importance_values")
+    mode = ("param", [a.arg for a in fn.args.args][1])
+    # the values being normalised: the importance_values property
+    iv = prog.summarise(cls, "importance_values").ret
+    cands = [t for t in {x for ev, _ in walk(s.events) for part in ev if isinstance(part, tuple) for x in ir.subterms(part)}
+             if ir.strip_sites(t) == ir.strip_sites(iv)]
+    run.need(cands, "get_normalized_importance_values does not read importance_values")
+    vals = cands[0]
     from .common import return_cases
     seen = set()
     # unknown modes must raise (the raise may sit in an inlined helper)
@@ -121,18 +126,8 @@ def _normalise(run, prog):
     if missing and not run.findings:
         run.fail("FORMULA", "norm.cases", f"{s.path}:{s.fn.lineno}", fq, f"missing cases {sorted(map(str, missing))}",
                  f"normalisation must handle sum/delta x zero/non-zero and reject other modes; missing {sorted(map(str, missing))}")
-    # public entry passes values and mode through
-    pub = prog.summarise(cls, "get_normalized_importance_values")
-    run.analysed_fn(f"{cls.name}.get_normalized_importance_values")
-    _, pfn = prog.find_method(cls, "get_normalized_importance_values")
-    pmode = ("param", [a.arg for a in pfn.args.args][1])
-    inl = [ev for ev, _ in walk(pub.events, structural=True) if isinstance(ev, ir.Inlined) and
-           ev.qual.endswith("_normalize_importance_values")]
-    run.check(bool(inl), "FORMULA", "norm.public", f"{pub.path}:{pub.fn.lineno}", f"{cls.name}.get_normalized_importance_values",
-              "delegation", "the public method does not delegate to the normalisation helper", "delegates to the helper")
-    default = pfn.args.defaults[-1].value if pfn.args.defaults else None
-    run.check(default == "sum", "FORMULA", "norm.default-mode", f"{pub.path}:{pub.fn.lineno}",
-              f"{cls.name}.get_normalized_importance_values", f"default mode {default!r}",
+    default = fn.args.defaults[-1].value if fn.args.defaults else None
+    run.check(default == "sum", "FORMULA", "norm.default-mode", f"{s.path}:{s.fn.lineno}", fq, f"default mode {default!r}",
               f"the documented default mode is 'sum', found {default!r}", "default mode 'sum'")
 
 
@@ -221,8 +216,9 @@ def _variances(run, prog):
     # alpha range check on the value actually used
     init = prog.summarise(cls, "__init__")
     run.analysed_fn(f"{cls.name}.__init__")
-    alpha = init.fields.get("_smoothing_alpha")
-    run.need(alpha is not None, "no _smoothing_alpha field")
+    from .explcore import alpha_field
+    afield, alpha = alpha_field(prog, cls)
+    run.need(alpha is not None, "the exponential smoothing tracker is not constructed with a smoothing parameter")
     dyn = ("param", "dynamic_setting")
     ok = False
     for cond, guards, gl in guard_conditions(init.events):
@@ -285,7 +281,10 @@ def _bound(run, prog):
                  "the bound does not use the feature's tracked variance")
         return
     VAR = var_terms[0]
-    A, T = ("field0", "_smoothing_alpha"), ("field0", "seen_samples")
+    from .explcore import alpha_field
+    afield, _ = alpha_field(prog, cls)
+    run.need(afield is not None, "the effective smoothing parameter is not kept in a field")
+    A, T = ("field0", afield), ("field0", "seen_samples")
     one, two = ("const", 1), ("const", 2)
     ref = ("op", "+", ("op", "**", ("op", "-", one, A), T),
            ("fn", "sqrt", (("op", "/", ("op", "*", VAR, A), ("op", "*", ("op", "-", two, A), delta)),)))
